@@ -127,6 +127,8 @@ def steered(tier, seed):
                 ns = set(range(1, min(9, mx + 1))) | set(range(max(1, mx - 10), mx + 1))
                 if not R.is_micro(v) and v > 10 and tier == 'quick':
                     ns = set(range(max(1, mx - 6), mx + 1)) | {1, 2, 3}
+                # one and two characters too many for the requested version: refused, or (a defect) a cut stream
+                ns |= {mx + 1, mx + 2}
                 for n in sorted(ns):
                     kw = {'version': v, 'boost_error': False, 'mask': (n + len(mode)) % R.n_masks(v)}
                     if lvl:
